@@ -27,7 +27,9 @@
    at out-of-domain points.  The harness matches every real constraint to the assertion with the same
    column whose steps are the zero set of the constraint's group divisor, reports the observed
    assignment (assertion -> index of the coefficient found in BoundaryConstraint::cc()) for each
-   permutation of the list, and the value of every real group's evaluate_at; TraceBoundary.tla
+   permutation of the list, the value of every real group's evaluate_at, and the composition trace of
+   the prover's DefaultConstraintEvaluator (transition constraints identically zero; LDE blowup 1x, 2x,
+   4x, 8x the constraint evaluation blowup) on the points of the constraint evaluation domain; TraceBoundary.tla
    (mechanism B) validates those records: the assignment is a bijection, identical for all
    permutations, groups are exactly the classes of equal step sets, and every group value equals the
    definition above.
@@ -292,6 +294,10 @@ Scenario(c) ==
              aux |-> [i \in 1..na |-> Row(b.aux[i], astate, atp, d)],
              mperms |-> Perms(nm, st), aperms |-> Perms(na, st + 1),
              cc |-> JP(cc), tdom |-> dom, coset |-> coset, cidx |-> cidx, ood |-> JP(ood),
+             \* option (LDE) blowups for the prover's evaluator: 1x, 2x, 4x, 8x the constraint evaluation
+             \* blowup (2: every declared degree is 1) as far as the field has roots of unity; the constraint
+             \* evaluation domain — hence every expected value — is the same for all of them
+             blowups |-> SelectSeq(<<2, 4, 8, 16>>, LAMBDA bl : L * bl <= 2 ^ TwoAdic(P)),
              mtrace |-> [k \in 1..b.mw |-> [i \in 1..L |-> TAt(mtp[k], dom[i], 1)[1]]],
              atrace |-> [k \in 1..b.aw |-> [i \in 1..L |-> JE(TAt(atp[k], dom[i], d))]],
              mstate |-> JP(mstate), astate |-> JP(astate)]
